@@ -638,6 +638,19 @@ fn part3(tier: Tier, deadline: &Deadline) -> Stats {
                     opts.seed = sd;
                     runs.push((run_loaded(&tc, &sigs, true, &script, &opts), opts));
                 }
+                // and the read-only methods (size_hint, vars) called before every next() change nothing
+                {
+                    let mut opts = RunOpts::new(20);
+                    opts.repeat_last = true;
+                    opts.continue_after_error = true;
+                    opts.seed = 1;
+                    opts.poke = true;
+                    let poked = run_loaded(&tc, &sigs, true, &script, &opts);
+                    if poked.items != runs[0].0.items || poked.log != runs[0].0.log {
+                        st.violation("size_hint()/vars() between the rows change the run", idx, format!("{text}the device answers Z, Z, then 1 for every output; calling size_hint() and vars() before every next() changes the rows or the driver calls"), || dyn_replay(&text, &sigs, true, &script, &opts, crate::compare::obs_items_brief(&runs[0].0), &poked, "differs from the run without the calls"));
+                        return;
+                    }
+                }
                 st.witness("same_program_under_three_seeds");
                 if let Some(j) = (1..3).find(|&j| runs[j].0.items != runs[0].0.items) {
                     let k = runs[0].0.items.iter().zip(runs[j].0.items.iter()).position(|(a, b)| a != b).unwrap_or(0);
